@@ -19,6 +19,7 @@ pub mod c10;
 pub mod c18;
 pub mod c07;
 pub mod c06;
+pub mod c09;
 
 pub struct Tier {
     pub thorough: bool,
@@ -135,6 +136,7 @@ pub fn run_property(id: &str, t: &Tier, replay: Option<(String, std::collections
         "C18" => c18::run(&mut pr, t),
         "C07" => c07::run(&mut pr, t),
         "C06" => c06::run(&mut pr, t),
+        "C09" => c09::run(&mut pr, t),
         _ => return None,
     }
     let _ = explore;
